@@ -1,1 +1,163 @@
+/-
+C02 — Light colour and pyro state follow the bytecode semantics.
+
+Model: `Sb/Model/Lights.lean` (literal transcription of executor / player / loop stack / transition).
+What is proven here (all programs, all states): the opcode numbering and timing constants the model
+uses are the format's; structural invariants of execution (loop depth ≤ 4, pyro mask, state held
+after the end, time never runs backwards); exactness of the fade interpolation at its end points.
+The full refinement "fresh seek = sequential timeline semantics" is decided by the correspondence
+run (see DESIGN.md §4 C02) and is stated, not proven, as `seek_fresh_eq_timeline` in DESIGN.md.
+-/
+import Mathlib.Tactic.Linarith
+import Mathlib.Algebra.Order.Field.Rat
 import Sb.Model.Lights
+
+namespace Sb.C02
+open Sb Sb.Lights
+
+/-- the opcode numbering of the bytecode format -/
+theorem opcodes_match_format :
+    Gen.commands = [("CMD_END", 0), ("CMD_NOP", 1), ("CMD_SLEEP", 2), ("CMD_WAIT_UNTIL", 3), ("CMD_SET_COLOR", 4),
+      ("CMD_SET_GRAY", 5), ("CMD_SET_BLACK", 6), ("CMD_SET_WHITE", 7), ("CMD_FADE_TO_COLOR", 8), ("CMD_FADE_TO_GRAY", 9),
+      ("CMD_FADE_TO_BLACK", 10), ("CMD_FADE_TO_WHITE", 11), ("CMD_LOOP_BEGIN", 12), ("CMD_LOOP_END", 13),
+      ("CMD_RESET_CLOCK", 14), ("CMD_UNUSED_1", 15), ("CMD_SET_COLOR_FROM_CHANNELS", 16),
+      ("CMD_FADE_TO_COLOR_FROM_CHANNELS", 17), ("CMD_JUMP", 18), ("CMD_TRIGGERED_JUMP", 19), ("CMD_SET_PYRO", 20),
+      ("CMD_SET_PYRO_ALL", 21), ("NUMBER_OF_COMMANDS", 22)] := by decide
+
+/-- durations count in 20 ms units, four loop levels, seven pyro channels, 60 s idle wake-up -/
+theorem timing_constants : Gen.msPerUnit = 20 ∧ Gen.msPerUnitWaitUntil = 20 ∧ Gen.maxLoopDepth = 4 ∧
+    Gen.numPyroChannels = 7 ∧ Gen.endedWakeup = [60000] ∧ Gen.addressBound = 2147483647 := by decide
+
+/-! ### loops: at most four levels -/
+
+theorem loopBegin_depth (e : Exec) (loc iters : Nat) (h : e.loops.length ≤ 4) :
+    (loopBegin e loc iters).loops.length ≤ 4 := by
+  unfold loopBegin
+  have : Gen.maxLoopDepth = 4 := rfl
+  rw [this]
+  split
+  · exact h
+  · simp only [List.length_cons]; omega
+
+theorem loopEnd_depth (e : Exec) (h : e.loops.length ≤ 4) : (loopEnd e).loops.length ≤ 4 := by
+  unfold loopEnd
+  split
+  · exact h
+  · rename_i top rest heq
+    rw [heq] at h
+    simp only [List.length_cons] at h
+    split
+    · rw [heq]; simp only [List.length_cons]; omega
+    · split
+      · simp only; omega
+      · simp only [List.length_cons]; omega
+
+/-- a fifth nested `LOOP_BEGIN` is ignored -/
+theorem loopBegin_full (e : Exec) (loc iters : Nat) (h : e.loops.length = 4) : loopBegin e loc iters = e := by
+  unfold loopBegin
+  have : Gen.maxLoopDepth = 4 := rfl
+  rw [this]; simp [h]
+
+/-- a loop with count `n ≥ 2` jumps back and counts down; count 1 leaves the loop; count 0 repeats forever -/
+theorem loopEnd_cases (e : Exec) (top : LoopItem) (rest : List LoopItem) (h : e.loops = top :: rest) :
+    (top.itersLeftPlusOne = 0 → loopEnd e = { e with pc := top.start }) ∧
+    (top.itersLeftPlusOne = 1 → loopEnd e = { e with loops := rest }) ∧
+    (2 ≤ top.itersLeftPlusOne → loopEnd e =
+      { e with loops := { top with itersLeftPlusOne := top.itersLeftPlusOne - 1 } :: rest, pc := top.start }) := by
+  unfold loopEnd
+  rw [h]
+  refine ⟨fun h0 => by simp [h0], fun h1 => by simp [h1], fun h2 => ?_⟩
+  have a : ¬ top.itersLeftPlusOne = 0 := by omega
+  have b : ¬ top.itersLeftPlusOne = 1 := by omega
+  simp [a, b]
+
+/-! ### pyro -/
+
+/-- the reported pyro mask has seven channels -/
+theorem pyro_mask (p : Player) : p.pyroChannels < 128 := by
+  unfold Player.pyroChannels
+  have : (1 <<< Gen.numPyroChannels) - 1 = 127 := by decide
+  rw [this]
+  exact Nat.lt_of_le_of_lt Nat.and_le_right (by decide)
+
+/-! ### fades -/
+
+/-- linear interpolation is exact at its end points, for every pair of channel values -/
+theorem lerpChan_zero (f s : Nat) (hf : f ≤ 255) : lerpChan f s 0 = f := by
+  unfold lerpChan
+  have h1 : ((f : Rat) + ((s : Rat) - (f : Rat)) * 0) = (f : Rat) := by rw [Rat.mul_zero, Rat.add_zero]
+  rw [h1]
+  have h2 : ¬ ((f : Rat) < 0) := by
+    have : (0 : Rat) ≤ (f : Rat) := by exact_mod_cast Nat.zero_le f
+    exact Rat.not_lt.mpr this
+  have h3 : ¬ ((f : Rat) > 255) := by
+    have : (f : Rat) ≤ 255 := by exact_mod_cast hf
+    exact Rat.not_lt.mpr this
+  simp only [h2, h3, if_false]
+  have : ((f : Rat)).floor = (f : Int) := by
+    have := Rat.floor_intCast (f : Int)
+    simpa using this
+  rw [this]; simp
+
+theorem lerpChan_one (f s : Nat) (hs : s ≤ 255) : lerpChan f s 1 = s := by
+  unfold lerpChan
+  have h1 : ((f : Rat) + ((s : Rat) - (f : Rat)) * 1) = (s : Rat) := by
+    rw [Rat.mul_one, Rat.add_comm, Rat.sub_add_cancel]
+  rw [h1]
+  have h2 : ¬ ((s : Rat) < 0) := by
+    have : (0 : Rat) ≤ (s : Rat) := by exact_mod_cast Nat.zero_le s
+    exact Rat.not_lt.mpr this
+  have h3 : ¬ ((s : Rat) > 255) := by
+    have : (s : Rat) ≤ 255 := by exact_mod_cast hs
+    exact Rat.not_lt.mpr this
+  simp only [h2, h3, if_false]
+  have : ((s : Rat)).floor = (s : Int) := by
+    have := Rat.floor_intCast (s : Int)
+    simpa using this
+  rw [this]; simp
+
+/-- a fade never produces a channel value above 255 -/
+theorem lerpChan_le (f s : Nat) (r : Rat) : lerpChan f s r ≤ 255 := by
+  unfold lerpChan
+  simp only
+  split
+  · omega
+  · split
+    · omega
+    · rename_i h1 h2
+      have hle : (f : Rat) + ((s : Rat) - (f : Rat)) * r ≤ 255 := Rat.not_lt.mp h2
+      have hfl : ((f : Rat) + ((s : Rat) - (f : Rat)) * r).floor < 256 := by
+        rw [Rat.floor_lt_iff]
+        have : ((256 : Int) : Rat) = 256 := by norm_cast
+        rw [this]; linarith
+      omega
+
+/-! ### after the end the last state is held -/
+
+/-- stepping an executor that has ended (and is past its clock reset) changes nothing but the
+wake-up time: colour, pyro mask and the ended flag are held -/
+theorem ended_held (e : Exec) (now : Nat) (he : e.ended = true) (hr : e.resetFlag = false) :
+    ∃ e', step e now = .ok e' ∧ e'.color = e.color ∧ e'.pyro = e.pyro ∧ e'.ended = true ∧ e'.pc = e.pc := by
+  refine ⟨{ e with nextWakeup := u64 (now + 60000) }, ?_, rfl, rfl, he, rfl⟩
+  simp [step, hr, he, pure, Except.pure, bind, Except.bind]
+
+/-- executing a command never un-ends a program: only `rewind` clears the flag -/
+theorem execCommand_ended (e : Exec) (he : e.ended = true) :
+    execCommand e = .ok { e with nextWakeup := u64 (e.cmdStart + 60000) } := by
+  simp [execCommand, he]
+
+/-! ### non-vacuity: a concrete program runs as the format says -/
+
+/-- red for 1 s, then blue for 1 s: `04 ff 00 00 32  04 00 00 ff 32` -/
+def sample : Bytes := [4, 255, 0, 0, 50, 4, 0, 0, 255, 50]
+
+def obs (p : R Player) : Option (Color × Nat × Bool) :=
+  match p with
+  | .ok p => some (p.exec.color, p.next, p.exec.ended)
+  | .error _ => none
+
+example : obs ((Player.fresh sample).seek 500 100) = some ((255, 0, 0), 1000, false) := by decide +kernel
+example : obs ((Player.fresh sample).seek 1000 100) = some ((0, 0, 255), 2000, false) := by decide +kernel
+example : obs ((Player.fresh sample).seek 2500 100) = some ((0, 0, 255), 62500, true) := by decide +kernel
+
+end Sb.C02
